@@ -115,7 +115,7 @@ def main(argv=None):
     monitors = plan.get("monitors", [prop])
     # phase 1: unit jobs that need no grid run together with the cases; jobs that compare
     # cases ("needs_cases") run in phase 2
-    late = [j for j in jobs if j.get("module", "").endswith(("pair_compare",)) or j.get("needs_cases")]
+    late = [j for j in jobs if j.get("module", "").endswith(("pair_compare", "ladder")) or j.get("needs_cases")]
     early = [j for j in jobs if j not in late]
     work = [(orchestrate.run_case, (s, monitors), {"use_cache": not args.no_cache}) for s in cases]
     work += [(orchestrate.run_job, (j,), {"use_cache": not args.no_cache}) for j in early]
@@ -125,7 +125,7 @@ def main(argv=None):
     if late:
         # a pair job's cache key must depend on the cases it reads
         for j in late:
-            j.setdefault("args", {})["_case_keys"] = [orchestrate.case_key(j["args"][k]) for k in ("a", "b") if isinstance(j["args"].get(k), dict)]
+            j.setdefault("args", {})["_case_keys"] = [orchestrate.case_key(j["args"][k]) for k in ("a", "b") if isinstance(j["args"].get(k), dict)] + [orchestrate.case_key(c_) for c_ in j["args"].get("cases", [])]
         job_res += orchestrate.run_many([(orchestrate.run_job, (j,), {"use_cache": not args.no_cache}) for j in late], jobs=args.jobs)
     jobs = early + late
     results = case_res + job_res
@@ -204,6 +204,8 @@ def main(argv=None):
             for i in range(int(out["distinct"])):
                 distinct.add("%s#%d" % (r["dir"], i))
         for rec_ in out.get("records", []):
+            if rec_.get("prop") and rec_["prop"] != prop:
+                continue  # a shared job reports for several properties
             records.append((src, rec_))
         for s in out.get("samples", [])[:3]:
             if len(samples) < 8:
